@@ -64,6 +64,13 @@ HasCycleDecl(V, gg) ==
             /\ p[1] = p[k + 1]
             /\ \A i \in 1..k : <<p[i], p[i + 1]>> \in gg
 
+\* the same thing through the transitive closure (nodes reachable by >= 1 edge): polynomial, for
+\* scenarios with many agents; MC_RewardGraph checks that it agrees with HasCycleDecl
+RECURSIVE ReachPlus(_, _, _)
+ReachPlus(gg, R, k) == IF k = 0 THEN R ELSE ReachPlus(gg, R \cup {e[2] : e \in {x \in gg : x[1] \in R}}, k - 1)
+HasCycleTC(V, gg) == \E a \in V : a \in ReachPlus(gg, Succs(gg, a), Cardinality(V))
+Cyclic(V, gg) == IF Cardinality(V) <= 4 THEN HasCycleDecl(V, gg) ELSE HasCycleTC(V, gg)
+
 \* every agent is evaluated exactly once, and every sharee before its sharer
 DepsFirst(ord, V, gg) ==
     /\ IsPermOf(ord, V)
